@@ -21,6 +21,28 @@ def run(ctx):
         for a in p:
             if a["name"] == "Tag":
                 tagset[(a["t"], a["n"], tuple(a["ts"]))] = a
+    # recordings with a tag that is larger than any buffer a writer may keep (256 KiB, 1 MiB) between small ones, with and
+    # without the header written first: the file holds what was written, in the order it was written
+    for big in (262129, 262144, 307200, 1 << 20):
+        for lead in (True, False):
+            p = [{"name": "Open", "mode": "file"}, {"name": "Hdr"}]
+            if lead:
+                p.append({"name": "Tag", "t": 8, "n": 7, "ts": [0, 0]})
+            p += [{"name": "Tag", "t": 9, "n": big, "ts": [0, 40]}, {"name": "Tag", "t": 8, "n": 9, "ts": [0, 63]},
+                  {"name": "Tag", "t": 9, "n": 111, "ts": [0, 80]}]
+            scen.append({"sc": len(scen), "kind": "session", "mode": "file", "steps": p})
+    # recordings read back through lal's own HTTP-FLV client (httpflv.PullSession) from a loopback HTTP server: a plain 200
+    # response, and a 302 with a small body first - the client hands on the same tags
+    k = 0
+    for p in paths:
+        if p[0].get("mode", "flv") == "file" and sum(1 for a in p if a["name"] == "Tag") >= 1 and any(a["name"] == "Hdr" for a in p):
+            k += 1
+            if k % (4 if ctx.quick else 1) == 0:
+                scen.append({"sc": len(scen), "kind": "session", "mode": "file", "steps": p, "via": ("http", "redir")[(k // 4) % 2 if ctx.quick else k % 2]})
+    for via in ("http", "redir"):
+        p = [{"name": "Open", "mode": "file"}, {"name": "Hdr"}] + [
+            {"name": "Tag", "t": (9, 8, 18)[i % 3], "n": (111, 7, 65521, 0, 300)[i % 5], "ts": [0, 40 * i]} for i in range(25)]
+        scen.append({"sc": len(scen), "kind": "session", "mode": "file", "steps": p, "via": via})
     # the pure functions on every enumerated (type, length, timestamp) + big lengths
     steps = [dict(a) for a in sorted(tagset.values(), key=lambda a: (a["t"], a["n"], a["ts"]))]
     ctx.rng.shuffle(steps)     # consecutive steps give the (from, to) timestamp pairs of ModTagTimestamp
